@@ -51,12 +51,12 @@ func webDocs() []map[string]any {
 		return map[string]any{"id": id, "type": "JsonWebKey2020", "controller": webDID, "publicKeyJwk": crash.PublicJWK(k)}
 	}
 	d0 := map[string]any{
-		"@context":           []any{"https://www.w3.org/ns/did/v1", "https://w3c-ccg.github.io/lds-jws2020/contexts/lds-jws2020-v1.json"},
-		"id":                 webDID,
-		"verificationMethod": []any{vm(webDID+"#0", keyA), vm(webDID+"#1", keyB)},
-		"assertionMethod":    []any{webDID + "#0", webDID + "#1"},
-		"authentication":     []any{webDID + "#0"},
-		"keyAgreement":       []any{vm(webDID+"#ka", keyB)},
+		"@context":             []any{"https://www.w3.org/ns/did/v1", "https://w3c-ccg.github.io/lds-jws2020/contexts/lds-jws2020-v1.json"},
+		"id":                   webDID,
+		"verificationMethod":   []any{vm(webDID+"#0", keyA), vm(webDID+"#1", keyB)},
+		"assertionMethod":      []any{webDID + "#0", webDID + "#1"},
+		"authentication":       []any{webDID + "#0"},
+		"keyAgreement":         []any{vm(webDID+"#ka", keyB)},
 		"capabilityInvocation": []any{webDID + "#0"},
 		"capabilityDelegation": []any{webDID + "#1"},
 		"service": []any{
